@@ -48,6 +48,40 @@ def same_payload_roles(rng):
             yield sc
 
 
+def fam_recur_far(rng, pool=70000, fork=False):
+    """Long evaluation history inside ONE process: `pool` distinct destinations (every address-bearing template), then destinations
+    from the beginning, the middle and the end of that history come back - unchanged, and with the same hash / key in another role.
+    Anything the evaluator remembers between scripts (a memo, an interning table, a ring of recent results of 2^10..2^16 entries)
+    shows here and nowhere else: no single script of this family is special, only the order is."""
+    import hashlib
+    kinds = ["p2pkh", "p2sh", "p2pk33", "p2pk65"] if fork else ["p2pkh", "p2sh", "p2pk33", "p2pk65", "p2wpkh", "p2wsh", "p2tr", "wprog"]
+    hist = []
+    for i in range(pool):
+        k = kinds[i % len(kinds)] if i % 7 else "p2pkh"
+        sc = template(rng, k)
+        hist.append((k, sc))
+        yield "recur-far:first:" + k, sc
+    marks = sorted(set([0, 1, 2, 3, 100, 1023, 1024, 1025, 4095, 4096, 4097, 8191, 8192, 16383, 16384, 32768, 65535, 65536, pool - 1] +
+                       [rng.randrange(pool) for _ in range(1500)]))
+    for i in marks:
+        if i < pool:
+            k, sc = hist[i]
+            yield "recur-far:again:" + k, sc
+            # the same 20 bytes in the other role, right after
+            if k == "p2pkh":
+                yield "recur-far:other-role:p2sh", b"\xa9\x14" + sc[3:23] + b"\x87"
+            elif k == "p2sh":
+                yield "recur-far:other-role:p2pkh", b"\x76\xa9\x14" + sc[2:22] + b"\x88\xac"
+            elif k in ("p2pk33", "p2pk65"):
+                key = sc[1:-1]
+                h = hashlib.new("ripemd160", hashlib.sha256(key).digest()).digest()
+                yield "recur-far:other-role:p2pkh-of-key", b"\x76\xa9\x14" + h + b"\x88\xac"
+    # second sweep in reverse order: the table has been refilled in between
+    for i in reversed(marks[::3]):
+        if i < pool:
+            yield "recur-far:again2:" + hist[i][0], hist[i][1]
+
+
 def fam_templates(rng, n):
     for k in TEMPLATES:
         for _ in range(n):
